@@ -124,17 +124,28 @@ def word_leg(ctx, binp, n, legname):
     ctx.extra["inside_model_fragment_words"] = total
 
 
-STMT_PRELUDE = """From Verif Require Import Base.Str Syntax.Word Syntax.MiniAst Syntax.MiniPrinter Syntax.MiniParser.
+STMT_PRELUDE = """From Verif Require Import Base.Str Syntax.Word Syntax.MiniAst Syntax.MiniPrinter Syntax.MiniParser Syntax.MiniPos Syntax.MiniPrinterML.
 Open Scope N_scope.
-Ltac chk3 i :=
-  vm_compute; split; [ tryif reflexivity then idtac else idtac "MISMATCH" 1 i
-  | split; [ tryif reflexivity then idtac else idtac "MISMATCH" 2 i
-           | tryif reflexivity then idtac else idtac "MISMATCH" 3 i ] ].
+Ltac leaf n i := first [reflexivity | exact I | idtac "MISMATCH" n i].
+Ltac conj n i := lazymatch goal with |- _ /\\ _ => split; [leaf n i | let m := eval compute in (S n) in conj m i] | _ => leaf n i end.
+Ltac chk i := vm_compute; conj 1%nat i.
 """
+
+STMT_WHAT = {
+    ("single", 1): "model sl_print_file bytes differ from the real Printer (SingleLine)",
+    ("single", 2): "model parse_file of the printed text differs from the real Parser",
+    ("single", 3): "model parse_file of the source differs from the real Parser",
+    ("default", 1): "model ml_print_pfile bytes differ from the real Printer (default mode, tree with the source's lines)",
+    ("default", 2): "model parse_file of the printed text differs from the real Parser",
+    ("default", 3): "model parse_file of the source differs from the real Parser",
+    ("default", 4): "canonical layout: the lines the real Parser assigns to the source differ from canon_file",
+    ("default", 5): "canonical layout: the lines the real Parser assigns to the PRINTED text differ from canon_file",
+    ("default", 6): "canonical layout: ml_print_file (canonical positions) differs from the real Printer bytes",
+}
 
 
 def stmt_leg(ctx, n):
-    """code leg at level S (statements): harness/cmd/c01s vs Syntax/MiniPrinter.v + MiniParser.v, in the kernel."""
+    """code leg at level S (statements): harness/cmd/c01s vs Syntax/MiniPrinter.v, MiniPrinterML.v, MiniPos.v, MiniParser.v, in the kernel."""
     binp = ctx.go_build("c01s")
     if not binp:
         return
@@ -152,43 +163,59 @@ def stmt_leg(ctx, n):
     good = []
     for r in cases:
         src_text = bytes.fromhex(r["src"]).decode("utf-8", "replace")
+        inp = {"src": r["src"], "src_text": src_text, "opts": r["opts"]}
         if r.get("err"):
             # the real printer's output for a fragment program does not re-parse (into the fragment): a concrete C01 failure
-            ctx.fail("stmt_reparse", {"src": r["src"], "src_text": src_text, "opts": r["opts"], "out": r.get("out")}, None, r["err"])
+            if ctx.pid == "C01":
+                ctx.fail("stmt_reparse", dict(inp, out=r.get("out")), None, r["err"])
         elif not r["same"]:
-            ctx.fail("stmt_roundtrip", {"src": r["src"], "src_text": src_text, "opts": r["opts"],
-                                        "out_text": bytes.fromhex(r["out"]).decode("utf-8", "replace")}, None,
-                     "real Parse(Print(tree)) differs from tree on a fragment program")
+            if ctx.pid == "C01":
+                ctx.fail("stmt_roundtrip", dict(inp, out_text=bytes.fromhex(r["out"]).decode("utf-8", "replace")), None,
+                         "real Parse(Print(tree)) differs from tree on a fragment program")
+        elif r["mode"] == "default" and not r.get("idem") and ctx.pid == "C02":
+            ctx.fail("stmt_idempotent", dict(inp, out_text=bytes.fromhex(r["out"]).decode("utf-8", "replace")), None,
+                     "real Print(Parse(Print(tree))) differs from Print(tree) on a fragment program (default mode)")
         else:
             good.append(r)
     mism = []
     total = 0
-    legname = "code:Printer separators (stmtList/stmt/command/ifClause...) + Parser statements vs Syntax/MiniPrinter.v, MiniParser.v (vm_compute in kernel)"
+    legname = ("code:Printer separators/newlines/indent (stmtList, nestedStmts, stmt, command, ifClause...) + Parser statements and "
+               "lines vs Syntax/MiniPrinter.v, MiniPrinterML.v, MiniPos.v, MiniParser.v (vm_compute in kernel)")
     for sh in range(0, len(good), 600):
         part = good[sh:sh + 600]
         lines = [STMT_PRELUDE]
         for i, r in enumerate(part):
-            pf = "sl_print_file" if r["mode"] == "single" else "ml_print_file"
             # reparse == tree for every case kept in `good`
-            lines.append("Goal let t := %s in let o := %s in %s t = o /\\ parse_file o = Some t /\\ parse_file %s = Some t. chk3 %d. Abort."
-                         % (r["tree"], coq_bytes(r["out"]), pf, coq_bytes(r["src"]), i))
+            if r["mode"] == "single":
+                lines.append("Goal let t := %s in let o := %s in sl_print_file t = o /\\ parse_file o = Some t /\\ parse_file %s = Some t. chk %d%%nat. Abort."
+                             % (r["tree"], coq_bytes(r["out"]), coq_bytes(r["src"]), i))
+            else:
+                bnl = "true" if r["bnl"] else "false"
+                canon = ("pt = canon_file t /\\ %s = canon_file t /\\ ml_print_file %d%%nat %s t = o" % (r["ptree2"], r["ind"], bnl)
+                         if r["canon"] and r.get("ptree2") else "True")
+                # an escaped newline between tokens (BinaryNextLine on a multi-line list) is outside the model parser
+                pout = "True" if "5c0a" in r["out"] else "parse_file o = Some t"
+                lines.append("Goal let t := %s in let pt := %s in let o := %s in ml_print_pfile %d%%nat %s pt = o /\\ %s /\\ "
+                             "parse_file %s = Some t /\\ %s. chk %d%%nat. Abort."
+                             % (r["tree"], r["ptree"], coq_bytes(r["out"]), r["ind"], bnl, pout, coq_bytes(r["src"]), canon, i))
         ok, out = ctx.coq_cases("%s_stmts_%d" % (ctx.pid.lower(), sh), "\n".join(lines) + "\n")
         if not ok:
             ctx.broken.append(("correspondence:code-eval", "coqc on generated statement cases failed: " + out[-800:]))
             return
         total += len(part)
-        what = {"1": "model print_file bytes differ from the real Printer", "2": "model parse_file of the printed text differs from the real Parser",
-                "3": "model parse_file of the source differs from the real Parser"}
         seen = set()
-        for tag, i in re.findall(r"MISMATCH\s+(\d)\s+(\d+)", out):
+        for tag, i in re.findall(r"MISMATCH\s+(\d+)(?:%nat)?\s+(\d+)", out):
             r = part[int(i)]
             if (tag, i) in seen:
                 continue
             seen.add((tag, i))
-            mism.append({"what": what[tag], "src_text": bytes.fromhex(r["src"]).decode("utf-8", "replace"), "opts": r["opts"],
-                         "go_out": bytes.fromhex(r["out"]).decode("utf-8", "replace")})
-    ctx.leg(legname, total, mism, note="%d fragment programs (pinned separator cases + generated, random layout); outside/err: %s" % (
-        total, json.dumps({k: v for k, v in summ.items() if k != "cases"})))
+            mism.append({"what": STMT_WHAT.get((r["mode"], int(tag)), tag), "src_text": bytes.fromhex(r["src"]).decode("utf-8", "replace"),
+                         "opts": r["opts"], "go_out": bytes.fromhex(r["out"]).decode("utf-8", "replace")})
+    nsingle = sum(1 for r in good if r["mode"] == "single")
+    ncanon = sum(1 for r in good if r["mode"] == "default" and r["canon"])
+    ctx.leg(legname, total, mism, note="%d SingleLine + %d default-mode fragment programs (%d of them in canonical layout: lines vs canon_file); "
+            "pinned separator cases + generated, random layout; outside/err: %s" % (
+                nsingle, total - nsingle, ncanon, json.dumps({k: v for k, v in summ.items() if not k.startswith("cases")})))
     ctx.extra["inside_model_fragment_stmts"] = total
     for r in good:
         ctx.nontrivial.add(("stmts", r["id"]))
@@ -266,7 +293,7 @@ def run(ctx):
         return
     word_leg(ctx, binp, 450 if ctx.tier == "quick" else 20000,
              "code:Printer.wordPart/dblQuoted/paramExp + Parser word parts vs Syntax/Word.v (vm_compute in kernel)")
-    stmt_leg(ctx, 200 if ctx.tier == "quick" else 6000)
+    stmt_leg(ctx, 100 if ctx.tier == "quick" else 4000)
     rerun_witnesses(ctx, binp)
     ctx.assumptions += [
         "proof covers level W (Lit, '..', $'..', \"..\", $\"..\", $x, ${x}; LangBash; delimiters blank tab newline ; & | )) and "
